@@ -3,10 +3,14 @@ import RSV.Props.C01all
 import RSV.Props.C02
 import RSV.Props.C03
 import RSV.Props.C06
+import RSV.Props.C07
+import RSV.Props.C08
+import RSV.Props.C09
 import RSV.Props.C10
 import RSV.Props.C11
 import RSV.Props.C12
 import RSV.Props.C13
 import RSV.Props.C14
 import RSV.Props.C15
+import RSV.Props.C16
 import RSV.Props.C17
